@@ -34,7 +34,6 @@ func VerifC20Island(h *verifrt.H) {
 	n2 := h.Uint16("N2")
 	h.Assume(n2 >= 1)
 	again := nm.GetFolderNumber(n2)
-	h.Known("C20-island-cache-ignores-N", "island-second-query", n2 != n)
 	fresh := New().Sanctuary(s).Realm(r).Swamp(w).GetFolderNumber(n2)
 	h.Assert(again == fresh, "island-second-query-pure")
 	h.ClearKnown()
@@ -72,7 +71,6 @@ func VerifC20Path(h *verifrt.H) {
 		h.Assume(hv >= 1<<(4*uint(digits-1)))
 	}
 	nm := New().Sanctuary("s").Realm("r").Swamp(w)
-	h.Known("C20-hashpath-slice-out-of-range", "panic", depth >= 0)
 	p1 := nm.GetFullHashPath("/data", 7, depth, maxFolders)
 	p2 := New().Sanctuary("s").Realm("r").Swamp(w).GetFullHashPath("/data", 7, depth, maxFolders)
 	h.ClearKnown()
